@@ -12,6 +12,7 @@
 
 #include <boost/multi/array_ref.hpp>              // for base, size, begin
 
+#include <algorithm>                              // for max
 #include <cassert>                               // for assert
 #include <cstddef>                                // for nullptr_t
 #include <exception>                              // for exception
@@ -40,11 +41,14 @@ auto xbase(It const& it)
 ->decltype(xbase_aux(it, std::integral_constant<bool, is_conjugated<It>{}>{})) {
 	return xbase_aux(it, std::integral_constant<bool, is_conjugated<It>{}>{}); }
 
-#define CTXT std::forward<Context>(ctxt)
-
-template<class Context, class It2DA, class Size, class It2DB, class It2DC,
-	std::enable_if_t<(!is_conjugated<It2DA>{} && !is_conjugated<It2DB>{}), int> = 0>  // NOLINT(modernize-use-constraints) TODO(correaa) for C++20
-auto gemm_n(Context&& ctxt, typename It2DA::element alpha, It2DA a_first, Size a_count, It2DB b_first, typename It2DA::element beta, It2DC c_first) // NOLINT(readability-function-cognitive-complexity) : 125
+// C = alpha*A*B + beta*C handed to xGEMM, where A (M x K), B (K x N) may be conjugated views and each of A, B, C has a unit stride.
+// A matrix of R x S elements with strides (s0, s1) is the column-major BLAS matrix X' = X   (R x S, element (r, s) at r + s*ld, ld = s1) when s0 == 1 or R == 1,
+//                                                and the column-major BLAS matrix X' = X^T (S x R, element (r, s) at s + r*ld, ld = s0) when s1 == 1 or S == 1;
+// the leading dimension steps over a dimension with at most one element is irrelevant and is then only made valid for BLAS (>= the extent it spans).
+// Direct form:     C' = C   = op(A') op(B');  transposed form: C' = C^T = op(B') op(A').  A conjugated operand can only enter through 'C' (conjugate transpose of what is stored).
+// Combinations for which no such call exists are rejected.
+template<class Context, class It2DA, class Size, class It2DB, class It2DC>
+auto gemm_n(Context&& ctxt, typename It2DA::element alpha, It2DA a_first, Size a_count, It2DB b_first, typename It2DA::element beta, It2DC c_first) // NOLINT(readability-function-cognitive-complexity)
 {
 	assert( (*b_first).size() == (*c_first).size() );          // NOLINT(cppcoreguidelines-pro-bounds-array-to-pointer-decay,hicpp-no-array-decay)
 	assert( a_first.stride()==1 || (*a_first).stride()==1 ); // NOLINT(cppcoreguidelines-pro-bounds-array-to-pointer-decay,hicpp-no-array-decay)
@@ -53,101 +57,49 @@ auto gemm_n(Context&& ctxt, typename It2DA::element alpha, It2DA a_first, Size a
 
 	if(a_count == 0) { return c_first; }
 
-	if      ((*a_first).stride()==1 && (*b_first).stride()==1 && (*c_first).stride()==1) {
-		if     ( a_count==1 && (*b_first).size()==1 ) {CTXT->gemm('N', 'N', (*b_first).size(), a_count, (*a_first).size(), &alpha, b_first.base(), (*b_first).size(), a_first.base(), (*a_first).size()  , &beta, c_first.base(), (*c_first).size()  );}
-		else if( a_count==1                        ) {CTXT->gemm('N', 'N', (*b_first).size(), a_count, (*a_first).size(), &alpha, b_first.base(), b_first. stride(), a_first.base(), (*a_first).size()  , &beta, c_first.base(), (*c_first).size()  );}
-		else                                         {CTXT->gemm('N', 'N', (*b_first).size(), a_count, (*a_first).size(), &alpha, b_first.base(), b_first. stride(), a_first.base(), a_first. stride(), &beta, c_first.base(), c_first. stride());}
-	}else if((*a_first).stride()==1 && (*b_first).stride()==1 && c_first. stride()==1) {
-		if  (a_count==1)                            {CTXT->gemm('T', 'T', a_count, (*b_first).size(), (*a_first).size(), &alpha, a_first.base(), a_first. stride(), b_first.base(), (*b_first).size()  , &beta, c_first.base(), (*a_first).size()  );}
-		else                                        {CTXT->gemm('T', 'T', a_count, (*b_first).size(), (*a_first).size(), &alpha, a_first.base(), a_first. stride(), b_first.base(), b_first. stride(), &beta, c_first.base(), (*c_first).stride());}
-	}else if(a_first. stride()==1 && (*b_first).stride()==1 && (*c_first).stride()==1) { 
-		if  (a_count==1)                            {CTXT->gemm('N', 'T', (*c_first).size(), a_count, (*a_first).size(), &alpha, b_first.base(), b_first. stride(), a_first.base(), (*a_first).stride(), &beta, c_first.base(), a_count         );}
-		else                                        {CTXT->gemm('N', 'T', (*c_first).size(), a_count, (*a_first).size(), &alpha, b_first.base(), b_first. stride(), a_first.base(), (*a_first).stride(), &beta, c_first.base(), c_first.stride());}
-	}else if(a_first. stride()==1 && (*b_first).stride()==1 && c_first. stride()==1) {
-		if  (a_count==1)                            {CTXT->gemm('N', 'T', a_count, (*b_first).size(), (*a_first).size(), &alpha, a_first.base(), (*a_first).stride(), b_first.base(), (*a_first).size()  , &beta, c_first.base(), (*b_first).size()  );}
-		else                                        {CTXT->gemm('N', 'T', a_count, (*b_first).size(), (*a_first).size(), &alpha, a_first.base(), (*a_first).stride(), b_first.base(), b_first. stride(), &beta, c_first.base(), (*c_first).stride());}
-	}else if((*a_first).stride()==1 && b_first.stride()==1 && c_first. stride()==1) {
-		if     (a_count==1 && (*b_first).size()==1)  {CTXT->gemm('N', 'N', (*c_first).size(), a_count, (*a_first).size(), &alpha, b_first.base(), (*b_first).size()  , a_first.base(), (*a_first).size()  , &beta, c_first.base(), (*c_first).stride());}
-		else if(a_count==1)                         {CTXT->gemm('N', 'T', (*c_first).size(), a_count, (*a_first).size(), &alpha, b_first.base(), (*b_first).stride(), a_first.base(), (*a_first).size()  , &beta, c_first.base(), (*c_first).stride());}
-		else if((*a_first).size() == 1 && (*b_first).size() == 1)
-		                                            {CTXT->gemm('N', 'N', (*c_first).size(), a_count, (*a_first).size(), &alpha, b_first.base(), (*b_first).stride(), a_first.base(), a_first. stride(), &beta, c_first.base(), (*c_first).stride());}
-		else                                        {CTXT->gemm('T', 'N', a_count, (*c_first).size(), (*a_first).size(), &alpha, a_first.base(), a_first. stride(), b_first.base(), (*b_first).stride(), &beta, c_first.base(), (*c_first).stride());}  // C (column-major) = A (row-major, seen as A^T by BLAS) * B (column-major)
-	}else if((*a_first).stride()==1 && b_first. stride()==1 && (*c_first).stride()==1) {
-		if  (a_count==1)                            {CTXT->gemm('T', 'N', a_count, (*c_first).size(), (*a_first).size(), &alpha, b_first.base(), (*b_first).stride(), a_first.base(), (*a_first).size(), &beta, c_first.base(), c_first. stride());}
-		else                                        {CTXT->gemm('T', 'N', (*c_first).size(), a_count, (*a_first).size(), &alpha, b_first.base(), (*b_first).stride(), a_first.base(), a_first. stride(), &beta, c_first.base(), c_first. stride());}
-	}else if(a_first. stride()==1 && b_first.stride( )==1 && c_first. stride()==1) {
-		if  ((*b_first).size()==1)                   {CTXT->gemm('N', 'N', a_count, (*b_first).size(), (*a_first).size(), &alpha, a_first.base(), (*a_first).stride(), b_first.base(), (*b_first).stride(), &beta, c_first.base(), a_count          );}
-		else                                        {CTXT->gemm('N', 'N', a_count, (*b_first).size(), (*a_first).size(), &alpha, a_first.base(), (*a_first).stride(), b_first.base(), (*b_first).stride(), &beta, c_first.base(), (*c_first).stride());}
-	}else if(a_first. stride()==1 && b_first.stride( )==1 && (*c_first).stride()==1) {          
-	                                                {CTXT->gemm('T', 'T', (*b_first).size(), a_count, (*a_first).size(), &alpha, b_first.base(), (*b_first).stride(), a_first.base(), (*a_first).stride(), &beta, c_first.base(), c_first. stride());}
-	} else {assert(0);}  // NOLINT(cppcoreguidelines-pro-bounds-array-to-pointer-decay,hicpp-no-array-decay)
+	using ssize = std::ptrdiff_t;
+	constexpr bool conj_a = is_conjugated<It2DA>{};
+	constexpr bool conj_b = is_conjugated<It2DB>{};
+
+	auto const M = static_cast<ssize>(a_count);             // NOLINT(readability-identifier-naming) BLAS naming
+	auto const K = static_cast<ssize>((*a_first).size());   // NOLINT(readability-identifier-naming) BLAS naming
+	auto const N = static_cast<ssize>((*b_first).size());   // NOLINT(readability-identifier-naming) BLAS naming
+
+	auto const ld = [](ssize stride, ssize steps, ssize span) { return steps <= 1 ? std::max(stride, std::max(ssize{1}, span)) : stride; };
+
+	auto const as0 = static_cast<ssize>(a_first.stride()); auto const as1 = static_cast<ssize>((*a_first).stride());
+	auto const bs0 = static_cast<ssize>(b_first.stride()); auto const bs1 = static_cast<ssize>((*b_first).stride());
+	auto const cs0 = static_cast<ssize>(c_first.stride()); auto const cs1 = static_cast<ssize>((*c_first).stride());
+
+	bool const a_col = (as0 == 1 || M == 1); auto const lda_col = ld(as1, K, M);  // A' = A   (M x K)
+	bool const a_row = (as1 == 1 || K == 1); auto const lda_row = ld(as0, M, K);  // A' = A^T (K x M)
+	bool const b_col = (bs0 == 1 || K == 1); auto const ldb_col = ld(bs1, N, K);  // B' = B   (K x N)
+	bool const b_row = (bs1 == 1 || N == 1); auto const ldb_row = ld(bs0, K, N);  // B' = B^T (N x K)
+	bool const c_col = (cs0 == 1 || M == 1); auto const ldc_col = ld(cs1, N, M);  // C' = C   (M x N)
+	bool const c_row = (cs1 == 1 || N == 1); auto const ldc_row = ld(cs0, M, N);  // C' = C^T (N x M)
+
+	// op(X') = X: 'N' on the column-major form, 'T' on the transposed form, or - for a conjugated view - 'C' on the transposed form
+	bool const a_plain = conj_a ? a_row : (a_col || a_row);
+	char const ta      = conj_a ? 'C' : (a_col ? 'N' : 'T');
+	auto const lda     = (conj_a || !a_col) ? lda_row : lda_col;
+	bool const b_plain = conj_b ? b_row : (b_col || b_row);
+	char const tb      = conj_b ? 'C' : (b_col ? 'N' : 'T');
+	auto const ldb     = (conj_b || !b_col) ? ldb_row : ldb_col;
+	// op(X') = X^T: 'N' on the transposed form, 'T' on the column-major form, or - for a conjugated view - 'C' on the column-major form
+	bool const a_trans = conj_a ? a_col : (a_row || a_col);
+	char const tat     = conj_a ? 'C' : (a_row ? 'N' : 'T');
+	auto const ldat    = (conj_a || !a_row) ? lda_col : lda_row;
+	bool const b_trans = conj_b ? b_col : (b_row || b_col);
+	char const tbt     = conj_b ? 'C' : (b_row ? 'N' : 'T');
+	auto const ldbt    = (conj_b || !b_row) ? ldb_col : ldb_row;
+
+	if     (c_col && a_plain && b_plain) {std::forward<Context>(ctxt)->gemm(ta , tb , M, N, K, &alpha, xbase(a_first), lda , xbase(b_first), ldb , &beta, base(c_first), ldc_col);}
+	else if(c_row && a_trans && b_trans) {std::forward<Context>(ctxt)->gemm(tbt, tat, N, M, K, &alpha, xbase(b_first), ldbt, xbase(a_first), ldat, &beta, base(c_first), ldc_row);}
+	else                                 {throw std::logic_error{"not BLAS-implemented"};}  // NOLINT(fuchsia-default-arguments-calls)
 
 	return c_first + a_count;
 }
 
-template<class Context, class It2DA, class Size, class It2DB, class It2DC,
-	std::enable_if_t<(!is_conjugated<It2DA>{} && is_conjugated<It2DB>{}), int> =0>  // NOLINT(modernize-use-constraints) TODO(correaa) for C++20
-auto gemm_n(Context&& ctxt, typename It2DA::element alpha, It2DA a_first, Size a_count, It2DB b_first, typename It2DA::element beta, It2DC c_first) // NOLINT(readability-function-cognitive-complexity) : 125
-{
-	assert( (*b_first).size() == (*c_first).size() );          // NOLINT(cppcoreguidelines-pro-bounds-array-to-pointer-decay,hicpp-no-array-decay)
-	assert( a_first.stride()==1 || (*a_first).stride()==1 ); // NOLINT(cppcoreguidelines-pro-bounds-array-to-pointer-decay,hicpp-no-array-decay)
-	assert( b_first.stride()==1 || (*b_first).stride()==1 ); // NOLINT(cppcoreguidelines-pro-bounds-array-to-pointer-decay,hicpp-no-array-decay)
-	assert( c_first.stride()==1 || (*c_first).stride()==1 ); // NOLINT(cppcoreguidelines-pro-bounds-array-to-pointer-decay,hicpp-no-array-decay)
-
-	if(a_count == 0) { return c_first; }
-
-	if      ((*a_first).stride()==1 && (*b_first).stride()==1 && (*c_first).stride()==1) {
-	                            {CTXT->gemm('C', 'N', (*c_first).size(), a_count, (*a_first).size(), &alpha, underlying(b_first.base()), (*b_first).stride(), a_first.base(), (*a_first).size()  , &beta, c_first.base(), c_first.stride());}
-	}else if((*a_first).stride()==1 && b_first. stride()==1 && (*c_first).stride()==1){
-		if  (a_count==1)        {CTXT->gemm('C', 'N', a_count, (*c_first).size(), (*a_first).size(), &alpha, underlying(b_first.base()), (*b_first).stride(), a_first.base(), (*a_first).size()  , &beta, c_first.base(), c_first.stride());}
-		else                    {CTXT->gemm('C', 'N', (*c_first).size(), a_count, (*a_first).size(), &alpha, underlying(b_first.base()), (*b_first).stride(), a_first.base(), a_first.stride(), &beta, c_first.base(), c_first.stride());}
-	}else if((*a_first).stride()==1 && b_first. stride()==1 && c_first. stride()==1){
-								{CTXT->gemm('C', 'N', (*c_first).size(), a_count, (*a_first).size(), &alpha, underlying(b_first.base()), (*b_first).stride(), a_first.base(), a_first. stride(), &beta, c_first.base(), (*c_first).stride());}
-	}else if(a_first. stride()==1 && b_first. stride()==1 && c_first. stride()==1){
-								{CTXT->gemm('C', 'T', (*c_first).size(), a_count, (*a_first).size(), &alpha, underlying(b_first.base()), (*b_first).stride(), a_first.base(), (*a_first).stride(), &beta, c_first.base(), (*c_first).stride());}
-	}else if(a_first. stride()==1 && b_first. stride()==1 && (*c_first).stride()==1){
-								{CTXT->gemm('C', 'T', a_count, (*c_first).size(), (*a_first).size(), &alpha, underlying(b_first.base()), (*b_first).stride(), a_first.base(), (*a_first).stride(), &beta, c_first.base(), c_first. stride());}
-	}else{assert(0);}  // NOLINT(cppcoreguidelines-pro-bounds-array-to-pointer-decay,hicpp-no-array-decay)
-
-	return c_first + a_count;
-}
-
-template<class Context, class It2DA, class Size, class It2DB, class It2DC,
-	std::enable_if_t<(is_conjugated<It2DA>{} && !is_conjugated<It2DB>{}), int> =0>  // NOLINT(modernize-use-constraints) TODO(correaa) for C++20
-auto gemm_n(Context&& ctxt, typename It2DA::element alpha, It2DA a_first, Size a_count, It2DB b_first, typename It2DA::element beta, It2DC c_first) // NOLINT(readability-function-cognitive-complexity) : 125
-{
-	assert( (*b_first).size() == (*c_first).size() );          // NOLINT(cppcoreguidelines-pro-bounds-array-to-pointer-decay,hicpp-no-array-decay)
-	assert( a_first.stride()==1 || (*a_first).stride()==1 ); // NOLINT(cppcoreguidelines-pro-bounds-array-to-pointer-decay,hicpp-no-array-decay)
-	assert( b_first.stride()==1 || (*b_first).stride()==1 ); // NOLINT(cppcoreguidelines-pro-bounds-array-to-pointer-decay,hicpp-no-array-decay)
-	assert( c_first.stride()==1 || (*c_first).stride()==1 ); // NOLINT(cppcoreguidelines-pro-bounds-array-to-pointer-decay,hicpp-no-array-decay)
-
-	if(a_count == 0) { return c_first; }
-
-	if      (a_first. stride()==1 && (*b_first).stride()==1 && (*c_first).stride()==1){
-		if  (a_count==1)        {CTXT->gemm('N', 'C', (*c_first).size(), a_count, (*a_first).size(), &alpha, b_first.base(), b_first. stride(), underlying(a_first.base()), (*a_first).stride(), &beta, base(c_first), (*a_first).size()); }
-		else                    {CTXT->gemm('N', 'C', (*c_first).size(), a_count, (*a_first).size(), &alpha, b_first.base(), b_first. stride(), underlying(a_first.base()), (*a_first).stride(), &beta, base(c_first), c_first.stride() ); }
-	} else                      {throw std::logic_error{"not BLAS-implemented"};}
-
-	return c_first + a_count;
-}
-
-template<class Context, class It2DA, class Size, class It2DB, class It2DC,
-	std::enable_if_t<(is_conjugated<It2DA>{} && is_conjugated<It2DB>{}), int> =0>  // NOLINT(modernize-use-constraints) TODO(correaa) for C++20
-auto gemm_n(Context&& ctxt, typename It2DA::element alpha, It2DA a_first, Size a_count, It2DB b_first, typename It2DA::element beta, It2DC c_first) // NOLINT(readability-function-cognitive-complexity) : 125
-{
-	assert( (*b_first).size() == (*c_first).size() );          // NOLINT(cppcoreguidelines-pro-bounds-array-to-pointer-decay,hicpp-no-array-decay)
-	assert( a_first.stride()==1 || (*a_first).stride()==1 ); // NOLINT(cppcoreguidelines-pro-bounds-array-to-pointer-decay,hicpp-no-array-decay)
-	assert( b_first.stride()==1 || (*b_first).stride()==1 ); // NOLINT(cppcoreguidelines-pro-bounds-array-to-pointer-decay,hicpp-no-array-decay)
-	assert( c_first.stride()==1 || (*c_first).stride()==1 ); // NOLINT(cppcoreguidelines-pro-bounds-array-to-pointer-decay,hicpp-no-array-decay)
-
-	if(a_count == 0) { return c_first; }
-	if      (a_first. stride()==1 && b_first. stride()==1 && (*c_first).stride()==1){
-	                            {CTXT->gemm('C', 'C', a_count, (*c_first).size(), (*a_first).size(), &alpha, underlying(base(b_first)), (*b_first).stride(), underlying(base(a_first)), (*a_first).stride(), &beta, base(c_first), c_first. stride());}
-	} else                      {throw std::logic_error{"not BLAS-implemented"};}
-	return c_first + a_count;
-}
-
-#undef CTXT
 
 template<class It2DA, class Size, class It2DB, class It2DC, class Context = blas::context*> // TODO(correaa) automatic deduction of context
 auto gemm_n(typename It2DA::element alpha, It2DA a_first, Size a_count, It2DB b_first, typename It2DA::element beta, It2DC c_first)
